@@ -64,6 +64,10 @@ def d(e, x):
         return z3.If(ch[0], d(ch[1], x), d(ch[2], x))
     if k == z3.Z3_OP_TO_REAL:
         return zero
+    if k == z3.Z3_OP_SELECT:
+        # array entry read at an index that is piecewise constant in x (a bin number): derivative 0 almost everywhere,
+        # and JAX differentiates gathers w.r.t. the gathered values only
+        return zero
     if k == z3.Z3_OP_POWER:
         a, b = ch
         if z3.is_int_value(b) or z3.is_rational_value(b):
